@@ -132,10 +132,7 @@ func (p *Path) runInit(pkg *ssa.Package) {
 	func() {
 		defer func() {
 			if r := recover(); r != nil {
-				if _, ok := r.(tolerantFail); ok {
-					return
-				}
-				panic(r)
+				return
 			}
 		}()
 		p.execFunction(initFn, nil, nil)
@@ -274,9 +271,9 @@ func (p *Path) tolerantInstr(fr *Frame, ins ssa.Instruction, f func()) {
 				}
 				return
 			}
-			if pe, ok := r.(pathEnd); ok && p.tolerant > 0 {
+			if p.tolerant > 0 {
 				if v, ok := ins.(ssa.Value); ok {
-					fr.env[v] = PoisonV{"path end in init: " + pe.reason}
+					fr.env[v] = PoisonV{fmt.Sprintf("failure in init: %v", r)}
 				}
 				return
 			}
